@@ -390,6 +390,20 @@ pub fn has_numeral_shape(s: &str) -> bool {
     i == b.len()
 }
 
+/// Reference reading of any string that has the permissive numeral shape: '_' separators in the mantissa are
+/// ignored, then it is read as a numeral (sign, digits, optional fraction, optional exponent).
+pub fn parse_numeral_lenient(s: &str) -> Option<Numeral> {
+    if !has_numeral_shape(s) {
+        return None;
+    }
+    let (mant, exp) = match s.find(|c| c == 'e' || c == 'E') {
+        Some(i) => (&s[..i], &s[i..]),
+        None => (s, ""),
+    };
+    let cleaned: String = mant.chars().filter(|&c| c != '_').collect::<String>() + exp;
+    parse_numeral(&cleaned)
+}
+
 /// Strict JSON number grammar: -? (0 | [1-9][0-9]*) (. [0-9]+)? ([eE] [+-]? [0-9]+)?
 pub fn is_json_number(s: &str) -> bool {
     let b = s.as_bytes();
